@@ -490,3 +490,33 @@ def random_insert_select_order(rng, g):
     spec = summarize(["builder", c["start"][1]], calls)
     # the relative order of columns / select items / from tables / criteria decides the specification: recompute, do not reuse
     return {"kind": "b", "cls": c["cls"], "start": ["builder", c["start"][1]], "calls": calls, "spec": spec, "db": c["db"]}
+
+
+# ---------------------------------------------------------------------------------------------
+# a scalar sub-query nested inside compound values, in every value position
+# ---------------------------------------------------------------------------------------------
+def nested_subquery_values():
+    import random
+    g = G(random.Random("C05-subvalue"), hazards=0.0)
+    out = []
+    for k in range(G.N_SUBVALUES):
+        for cls in JUDGED:
+            v = g.subvalue(["a", "b"], which=k)
+            w = ["basic", "gt", F("id"), I(1), None]
+            out.append({"kind": "b", "cls": cls, "start": ["update", "t"], "db": 1, "tag": "nested-subquery:set:%d" % k,
+                        "calls": [["set", ["s", "b"], ["t", v]], ["set", ["s", "c"], ["s", "k"]], ["where", w]],
+                        "spec": {"kind": "update", "table": "t", "sets": [["b", ["t", v]], ["c", ["s", "k"]]], "where": w}})
+        # as an INSERT value (no column references: literals instead of fields)
+        vi = G(random.Random("C05-subvalue-%d" % k), hazards=0.0).subvalue(["a"], which=k)
+        vi = json.loads(json.dumps(vi).replace(json.dumps(F("a")), json.dumps(I(3))))
+        row = [["i", 300 + k], ["t", vi]]
+        out.append({"kind": "b", "cls": "SQLLiteQuery", "start": ["into", "t"], "db": 1, "tag": "nested-subquery:insert:%d" % k,
+                    "calls": [["columns", [["s", "id"], ["s", "a"]]], ["insert", [["v", x] for x in row]]],
+                    "spec": {"kind": "insert", "table": "t", "cols": ["id", "a"], "rows": [row], "mode": "insert"}})
+        # as a WHERE operand
+        crit = g.subvalue(["a", "b"], which=k)
+        if crit[0] in ("case", "neg", "arith", "func"):
+            crit = ["basic", "gt", crit, I(1), None]
+        out.append({"kind": "b", "cls": "SQLLiteQuery", "start": ["delete", "t"], "db": 1, "tag": "nested-subquery:where:%d" % k,
+                    "calls": [["where", crit]], "spec": {"kind": "delete", "table": "t", "where": crit}})
+    return out
